@@ -13,6 +13,8 @@
 //! * a panic anywhere is a violation.
 use std::collections::BTreeMap;
 
+use aranya_policy_compiler::Compiler;
+use aranya_policy_lang::lang::{parse_policy_str, Version};
 use aranya_policy_vm::{
     BaseId, EnumDef, Field, Machine, ResultTypeKind, Struct, StructDef, TypeKind, Value,
 };
@@ -101,6 +103,39 @@ impl World {
     }
 }
 
+/// Policy-language spelling of a type term (inner structs by the names `World` gave them).
+fn type_text(t: &J, names: &BTreeMap<String, String>) -> String {
+    match tag(t) {
+        "int" | "bool" | "string" | "bytes" | "id" | "unit" => tag(t).to_string(),
+        "enum" => "enum E".to_string(),
+        "opt" => format!("option[{}]", type_text(&t[1], names)),
+        "res" => format!("result[{}, {}]", type_text(&t[1], names), type_text(&t[2], names)),
+        "struct" => format!("struct {}", names.get(&t.to_string()).unwrap_or_else(|| die("struct name"))),
+        x => die(&format!("unknown type {x}")),
+    }
+}
+
+/// The same schema written as policy source and taken through the real parser and compiler:
+/// the struct/enum definitions the VM would actually be given.  `None` if the front end
+/// does not accept the text (reported as a note, the hand-built definitions still decide).
+fn compiled_defs(tys: &[J], names: &BTreeMap<String, String>) -> Option<Machine> {
+    let mut src = String::from("enum E { A, B }\n");
+    for (term, name) in names {
+        let t: J = vrt::serde_json::from_str(term).unwrap_or_else(|_| die("type term"));
+        src.push_str(&format!("struct {name} {{ p {}, q bool }}\n", type_text(&t[1], names)));
+    }
+    let fields: Vec<String> =
+        tys.iter().enumerate().map(|(k, t)| format!("f{} {}", k + 1, type_text(t, names))).collect();
+    src.push_str(&format!("struct Top {{ {} }}\n", fields.join(", ")));
+    vrt::catch_any(|| {
+        let policy = parse_policy_str(&src, Version::V2).ok()?;
+        let module = Compiler::new(&policy).compile().ok()?;
+        Machine::from_module(module).ok()
+    })
+    .ok()
+    .flatten()
+}
+
 fn bytes_of(v: &J) -> Vec<u8> {
     v.as_array()
         .unwrap_or_else(|| die("bytes not array"))
@@ -180,6 +215,7 @@ fn de(m: &Machine, bytes: &[u8]) -> Result<Result<Struct, String>, String> {
 pub fn run(args: &Args) {
     let mut out = args.out();
     let nrand = args.opt_u64("random", 24) as usize;
+    let mut schema_cache: BTreeMap<String, Option<String>> = BTreeMap::new();
     for (i, case) in args.read_input().iter().enumerate() {
         let mut w = World { machine: Machine::new([]), names: BTreeMap::new() };
         w.machine.enum_defs.insert(EnumDef {
@@ -193,6 +229,18 @@ pub fn run(args: &Args) {
             .map(|(k, t)| Field { name: ident(&format!("f{}", k + 1)), ty: w.type_kind(t) })
             .collect();
         w.machine.struct_defs.insert(StructDef { name: ident("Top"), items });
+        // schema conformance: the compiler must hand the VM exactly these definitions
+        let schema_key = vrt::serde_json::to_string(tys).unwrap_or_default();
+        let verdict = schema_cache.entry(schema_key).or_insert_with(|| match compiled_defs(tys, &w.names) {
+            None => Some("the front end does not accept this schema as policy source".to_string()),
+            Some(cm) => {
+                let same = w.machine.struct_defs.iter().all(|d| cm.struct_defs.get(&d.name) == Some(d))
+                    && cm.enum_defs.get(&ident("E")) == w.machine.enum_defs.get(&ident("E"));
+                if same { None } else { Some("compiled struct definitions differ from the schema".to_string()) }
+            }
+        });
+        let schema_note = verdict.clone();
+        let verdict_is_same = schema_note.is_none();
         let vals = case.a("v");
         let top = Struct::new(
             ident("Top"),
@@ -205,6 +253,12 @@ pub fn run(args: &Args) {
         let m = &w.machine;
         let mut drift = 0u64;
         let mut notes: Vec<String> = Vec::new();
+        if cls == "roundtrip" {
+            if let Some(n) = schema_note {
+                drift += 1;
+                notes.push(n);
+            }
+        }
 
         // the valid encoding, always needed
         let ser = match vrt::catch_any(|| m.serialize_struct(&top)) {
@@ -382,7 +436,9 @@ pub fn run(args: &Args) {
         if args.opt_bool("strict") && drift > 0 {
             out.fail(i, 0, "C26:selftest-mismatch", &notes.join("; "), json!({}));
         } else {
-            out.emit(json!({"i": i, "ok": true, "step": -1, "drift": drift, "obs": {"notes": notes, "len": ser.len()}}));
+            let schema = if cls != "roundtrip" { "-" } else if verdict_is_same { "compiled-same" } else { "compiled-differs-or-rejected" };
+            out.emit(json!({"i": i, "ok": true, "step": -1, "drift": drift,
+                            "obs": {"notes": notes, "len": ser.len(), "schema": schema}}));
         }
     }
     out.finish();
